@@ -89,6 +89,11 @@ def gen_cases(ctx, n):
         for cut in cuts:
             tags = {"fault-free", kind, "extract" if any(t.startswith("x") for t in toks[:cut]) else "noextract"}
             out.append(Case(A.rdr_op(skind, pol, toks[:cut], d), judge=judge, tags=tags, note=("ff", i) if cut == len(toks) else None))
+        if kind == "tree-extract-fail":
+            # the same with the file system answering "a directory component of this path is a symbolic link" (token x2) on some
+            # extractions: the refusal branch of a re-presented deferred link (the reader model has no such answer: C alone)
+            t2 = [("x2" if (t == "x1" and r.random() < 0.6) else t) for t in toks]
+            out.append(Case(A.rdr_op(skind, pol, t2, d), judge=judge, tags={"fault-free", kind, "extract", "component-is-symlink", "c-only"}))
         ks = range(0, 40) if ctx.tier == "thorough" else sorted(set(r.randrange(0, 30) for _ in range(5)))
         for kk in ks:
             out.append(Case(A.rdr_op(skind, pol, toks, d, fail_at=kk), judge=judge, tags={"alloc-fail", kind, "c-only"}, note=("inj", i)))
